@@ -92,6 +92,8 @@ func init() {
 			Run: func(P *Program, R *Report) { errorResultsUsedRule(P, R, "C06.m", inFiles(P, "builder.go", "issuer.go"), nil, 10) }},
 		Rule{ID: "C06.n", Explain: "the issuer sees every proof of the commitment message: ProofList.UnmarshalJSON (the decoder of IssueCommitmentMessage.Proofs) makes one object per element and returns nil only after the whole list was looked at (the obligations of C08.e, same rule) - a list that stops at the first disclosure proof loses the ProofU and an honest issuance fails.",
 			Run: func(P *Program, R *Report) { sharedRule(P, R, "C08", "C08.e", "C06.n", nil) }},
+		Rule{ID: "C06.o", Explain: "the witness that comes with an issued credential is checked against an accumulator the issuer signed: the verified-accumulator memo of SignedAccumulator and the other verifier-derived fields cannot be set from the wire (the obligations of C11.h, same rule) - a decodable memo lets the sender of an issuance message supply the accumulator its altered witness fits.",
+			Run: func(P *Program, R *Report) { sharedRule(P, R, "C11", "C11.h", "C06.o", nil) }},
 	)
 }
 
